@@ -60,10 +60,11 @@ def run_corpus_subset(ctx, prop):
     """self-test: patches written against this property must be reported, neutral ones must stay silent"""
     from tools_corpus import patches, run   # type: ignore
     res = []
-    for p in patches():
-        if p["prop"] != prop:
-            continue
-        r = run(p)
+    from concurrent.futures import ThreadPoolExecutor
+    todo = [p for p in patches() if p["prop"] == prop]
+    with ThreadPoolExecutor(max_workers=6) as ex:
+        results = list(ex.map(lambda q: run(q, only_prop=prop), todo))
+    for p, r in zip(todo, results):
         fired = sorted(r.get("fired", {}))
         expect_fire = p["kind"] != "neutral"
         good = (prop in fired) if expect_fire else (not fired)
